@@ -116,7 +116,15 @@ func (r *c18Run) checkCompareIgnores(cs *c18Case, a, b *flavors.Instance, cp ppa
 		r.check(cs, !ignoreCovers(eff, rp), c18Diff{sig: sig("compare-ignore", steps, cell, what+"-reported-anyway"),
 			observed: fmt.Sprintf("ignoring %s: %s", slip.ObjectString(obj), slip.ObjectString(o.Value)), expected: "nil or a location outside the ignored one", from: "impl:compare-ignores"})
 		n1, n2 := treeAt(a.Any, rp), treeAt(b.Any, rp)
-		r.check(cs, n1 != n2, c18Diff{sig: sig("compare-ignore", steps, cell, "path-does-not-differ"),
+		differs := n1 != n2
+		if !differs && n1 == "absent" && len(rp) > 0 {
+			// ojg names the first index past the shorter of two arrays of different length once the
+			// differing element itself is ignored ([[1]] against [[1 2]] ignoring [0][1] => (0 2)): the
+			// location exists in neither; the difference it stands for is the one of the parents
+			differs = treeAt(a.Any, rp[:len(rp)-1]) != treeAt(b.Any, rp[:len(rp)-1])
+			r.c.Ev.Hist("compare_ignore", "index-past-both-arrays")
+		}
+		r.check(cs, differs, c18Diff{sig: sig("compare-ignore", steps, cell, "path-does-not-differ"),
 			observed: fmt.Sprintf("ignoring %s: %s where both hold %s", slip.ObjectString(obj), slip.ObjectString(o.Value), n1), expected: "a path to a difference", from: "impl:compare-ignores"})
 	}
 	form := variant % 4
